@@ -24,8 +24,8 @@ Close transcription of `internal/repository/prune.go`:
 Maps are functions with point updates; Go `uint` arithmetic is `Nat` (subtractions are proved /
 observed not to underflow); the `uint8` counter is a `Nat` that is never incremented beyond 255.
 
-`sel` in the state of the duplicate pass is ghost state (the entries switched to "used"); it does
-not influence any other field.
+`marks` in the state of the duplicate pass is ghost state (one flag per visited entry, newest
+first: "this entry was switched to used"); it does not influence any other field.
 
 Core Lean only.
 -/
@@ -174,14 +174,14 @@ structure S3 where
   cnt : Cnt
   ip : IP
   st : Stats
-  sel : List PB       -- ghost: the duplicate entries switched to "used"
+  marks : List Bool   -- ghost: per visited entry (newest first), was it switched to "used"
 
 /-- third pass (only when duplicates exist): select one occurrence of every duplicated blob -/
 def pass3Step (s : S3) (pb : PB) : S3 :=
   match s.cnt pb.e.blob with
-  | none => s
+  | none => { s with marks := false :: s.marks }
   | some count =>
-    if count = 1 then s else
+    if count = 1 then { s with marks := false :: s.marks } else
     let ip : PackInfo := (s.ip pb.pack).getD {}
     let size := pb.e.len
     if ip.usedBlobs > 0 ∨ ip.duplicateBlobs = ip.unusedBlobs ∨ count = 0 then
@@ -190,31 +190,31 @@ def pass3Step (s : S3) (pb : PB) : S3 :=
                                                unusedSize := ip.unusedSize - size, unusedBlobs := ip.unusedBlobs - 1 })
         st := { s.st with sUsed := s.st.sUsed + size, bUsed := s.st.bUsed + 1,
                           sDup := s.st.sDup - size, bDup := s.st.bDup - 1 }
-        sel := pb :: s.sel }
+        marks := true :: s.marks }
     else
       let c := count - 1
       let c := if c = 1 then 0 else c
-      { s with cnt := upd s.cnt pb.e.blob (some c), ip := upd s.ip pb.pack (some ip) }
+      { s with cnt := upd s.cnt pb.e.blob (some c), ip := upd s.ip pb.pack (some ip), marks := false :: s.marks }
 
 structure PackInfoResult where
   cnt : Cnt
   ip : IP
   st : Stats
-  sel : List PB
+  marks : List Bool   -- ghost: in index order, "this duplicate entry was selected"
 
 /-- second and (if duplicates exist) third pass -/
 def pass23 (cnt : CntS) (idx : List PB) (st : Stats) : S3 :=
   let hs := hdrSizes idx
   let s2 := idx.foldl (pass2Step cnt.f) { ip := ipOf hs, st := st, hasDup := false }
-  if s2.hasDup then idx.foldl pass3Step { cnt := cnt.f, ip := s2.ip, st := s2.st, sel := [] }
-  else { cnt := cnt.f, ip := s2.ip, st := s2.st, sel := [] }
+  if s2.hasDup then idx.foldl pass3Step { cnt := cnt.f, ip := s2.ip, st := s2.st, marks := [] }
+  else { cnt := cnt.f, ip := s2.ip, st := s2.st, marks := idx.map fun _ => false }
 
 def packInfoFromIndex (used : List BlobH) (idx : List PB) (st : Stats) : Except PruneErr PackInfoResult :=
   let cnt := countPass used idx
   if used.any (fun b => cnt.f b == some 0) then .error .indexIncomplete else
   let s3 := pass23 cnt idx st
   if used.any (fun b => s3.cnt b != some 1) then .error .panicSelection else
-  .ok { cnt := s3.cnt, ip := s3.ip, st := s3.st, sel := s3.sel }
+  .ok { cnt := s3.cnt, ip := s3.ip, st := s3.st, marks := s3.marks.reverse }
 
 /-! ## decidePackAction -/
 
